@@ -11,11 +11,18 @@ RULE = (
     "files), and a schedule. Oracle at every launch event and every idle point: requests of own jobs between "
     "launch and exit + holdings of live foreign jobs <= total, and the token files on disk sum to <= total. "
     "Non-trivial = some launch was refused (aborted start), or a foreign holding existed, or requests are "
-    "heterogeneous."
+    "heterogeneous. Part real: 2-3 experiment processes on one token directory (task-side intervals weighted by "
+    "request). Part job-being-started: another scheduler opens the token while a job of ours has its token file "
+    "written and its .pid file not yet. Part two-schedulers-one-process: two experiments of one process obtain "
+    "the token through CounterToken.create with generated totals (equal or not); the second acquisition is "
+    "started at a generated source line of the first one (per-thread trace function), amounts and earlier "
+    "holdings generated; oracle: amounts granted to live jobs <= max of the totals, and every grant has its token "
+    "file; non-trivial = started inside the first acquisition and a refusal is needed."
 )
 ASSUMPTIONS = [
     "foreign schedulers follow the protocol of CounterToken.acquire/release (inter-process lock, recount, write)",
     "several OS processes racing on one directory are covered by the real-process part, not by the engine",
+    "two-schedulers-one-process: a second acquisition that has not returned 0.4 s after it was started is taken to be blocked and resumes when the first one is done (a choice of schedule, not a verdict)",
 ]
 MIN_CLASSES = {"quick": {"aborted-start": 800, "foreign-holding": 500, "file-token": 1500}, "thorough": {"aborted-start": 8000, "foreign-holding": 5000}}
 
@@ -135,4 +142,78 @@ def prop_starting(ctx, case):
 
 PARTS.append(Part("job-being-started", prop_starting, enumerate=starting_enumerate))
 MIN_CLASSES["quick"]["starting-job-observed"] = 4
+# --- two schedulers of one process share the token (two experiments, same token name) -------------
+# (the second one starts its acquisition at a generated source line of the first one's)
+
+
+def two_cases(ctx):
+    from hypothesis import strategies as st
+    from vlib.blueprint import chance
+
+    @st.composite
+    def gen(draw):
+        t1 = draw(st.integers(1, 4))
+        t2 = draw(st.integers(1, 4)) if chance(draw, 60) else t1
+        top = max(t1, t2)
+        pre = draw(st.lists(st.integers(1, t1), max_size=2))
+        return {"t1": t1, "t2": t2, "pre": pre, "a": draw(st.integers(1, top)), "b": draw(st.integers(1, top)), "k": draw(st.integers(1, 60))}
+
+    return gen()
+
+
+def prop_two(ctx, case):
+    import json
+    import os
+    import shutil
+    import subprocess
+    import sys
+
+    from vlib import real
+    from vlib.core import VERIF, HarnessError
+
+    d = ctx.scratch / "two"
+    shutil.rmtree(d, ignore_errors=True)
+    d.mkdir(parents=True)
+    env = dict(os.environ, PYTHONPATH=real.pythonpath())
+    try:
+        r = subprocess.run([sys.executable, "-W", "ignore", str(VERIF / "vx" / "twosched.py"), str(d), json.dumps(case)], env=env, capture_output=True, text=True, timeout=120)
+    finally:
+        shutil.rmtree(d, ignore_errors=True)
+    lines = [l for l in r.stdout.splitlines() if l.startswith("{")]
+    if not lines:
+        raise HarnessError(f"two-scheduler driver gave no result: {r.stderr[-800:]}")
+    res = json.loads(lines[-1])
+    cap = max(case["t1"], case["t2"])
+    held = sum(res["held"].values())
+    labels = ["two-schedulers-one-process"]
+    if case["t1"] != case["t2"]:
+        labels.append("token-asked-twice-with-different-totals")
+    if not res["sequential"]:
+        labels.append("second-acquisition-started-inside-the-first")
+        labels.append("second-finished-while-first-paused" if res["b_finished_while_a_paused"] else "second-waited-for-the-first")
+    needs_refusal = sum(case["pre"]) + case["a"] + case["b"] > cap
+    if needs_refusal:
+        labels.append("a-refusal-is-needed")
+    if res["stuck"]:
+        ctx.inconclusive["two-schedulers:acquisition-did-not-return"] += 1
+    if any(o.startswith("raised") for o in res["outcome"].values()):
+        labels.append("acquire-raised")
+    if held > cap:
+        ctx.violation(
+            "capacity-exceeded:two-schedulers-one-process",
+            f"two experiments of one process ask for the token with totals {case['t1']} then {case['t2']}; jobs alive hold {res['held']} = {held} > {cap} "
+            f"(the second acquisition started at line {res['b_started_at']} of {res['lines']} of the first one; token files {res['disk']}, token.info {res['info']!r})",
+        )
+    for name, amount in res["held"].items():
+        if res["disk"].get(name) != amount:
+            ctx.violation(
+                "holder-without-token-file:two-schedulers-one-process",
+                f"job {name} was granted {amount} but the directory records {res['disk'].get(name)!r} for it ({res['disk']}): other processes count it wrong",
+            )
+    ctx.record(needs_refusal and not res["sequential"], labels, sample={"case": case, "result": res})
+
+
+PARTS.append(Part("two-schedulers-one-process", prop_two, strategy=two_cases, quick=320, thorough=4800, shrink_budget=20))
+MIN_CLASSES["quick"]["second-waited-for-the-first"] = 40
+MIN_CLASSES["quick"]["token-asked-twice-with-different-totals"] = 40
 TIMEOUT = {"quick": 900, "thorough": 5400}
